@@ -1,6 +1,7 @@
 package props
 
 import (
+	"fmt"
 	"strings"
 	"sync"
 	"sync/atomic"
@@ -437,6 +438,26 @@ func runC08(c *core.Ctx) {
 			}
 		}()
 	})
+	// the public entry points on every second case
+	var nEntry int64
+	c.Pool.ParFor(len(cases), func(w, i int) {
+		k := cases[i]
+		if i%2 != 0 || schemaOf[k.Srcs[0]] == nil || len(k.Query) > 20000 {
+			return
+		}
+		atomic.AddInt64(&nEntry, 1)
+		func() {
+			defer func() {
+				if r := recover(); r != nil {
+					c.ReportOracle("entry-point-panic", map[string]interface{}{"schema": k.Srcs, "query": k.Query[:min(400, len(k.Query))], "panic": fmt.Sprint(r)})
+				}
+			}()
+			if m := queryEntryProblem(schemaOf[k.Srcs[0]], k.Query); m != "" {
+				c.ReportOracle("entry-point-differs", map[string]interface{}{"schema": k.Srcs, "query": k.Query[:min(400, len(k.Query))], "problem": m})
+			}
+		}()
+	})
+	c.Count("documents_through_LoadQuery_and_MustLoadQuery", nEntry)
 	c.Count("documents_validated_against_two_schemas", nTwo)
 	for r, n := range ruleHits {
 		c.Count("errors_of_rule_"+r, n)
